@@ -435,6 +435,27 @@ def r4(ctx: Context) -> None:
     ctx.add("R4", "pynenc-error::base-to-json-carries-args", not args_only, base_to.loc(),
             "" if not args_only else f"PynencError._to_json_dict serialises only __dict__ and _from_json_dict calls cls(**dict): the {len(args_only)} error classes without their own __init__ ({', '.join(sorted(args_only))}) lose Exception.args - a task failing with RetryError('try later') is read back as RetryError()")
     ctx.floor("R4", "PynencError classes", n_cls, 15)
+    # the reader finds the class of ANY error a body can raise, also of a class defined after the first failure was read:
+    # the subclass tree is walked in the call (or re-walked on a miss), not memoised once under a class-level guard
+    fj = pe.methods.get("from_json")
+    if fj is None:
+        raise AnalysisError("anchor-vanished: PynencError.from_json")
+    from ..flow import conditions_at, func_cfg
+
+    walks = [c for c in calls_in(fj.node) if call_name(c) in ("get_all_subclasses", "build_class_cache", "__subclasses__")]
+    okw = False
+    whyw = "no walk of the subclass tree (get_all_subclasses / build_class_cache / __subclasses__) in PynencError.from_json"
+    if walks:
+        g = func_cfg(repo, fj)
+        pmj = parent_map(fj.node)
+        for w in walks:
+            conds = conditions_at(g, fj.node, w, pmj)
+            memo = [c_ for c_ in conds if any(isinstance(x, ast.Attribute) and isinstance(x.value, ast.Name) and x.value.id in ("cls", "PynencError", "self") for x in ast.walk(c_))]
+            if not memo:
+                okw = True
+            else:
+                whyw = f"the subclass tree is walked only under `{ast.unparse(memo[0])[:60]}` - a class-level memo filled once: an error class defined (module imported) after the first failure was read is unknown to every later read in this process, FAILED then yields ValueError('Unknown error type') instead of the body's exception"
+    ctx.add("R4", "pynenc-error::from_json::walks-the-live-subclass-tree", okw, fj.loc(walks[0]) if walks else fj.loc(), "" if okw else whyw)
 
 
 def _required(init: FuncInfo):
@@ -442,6 +463,53 @@ def _required(init: FuncInfo):
     ps = a.posonlyargs + a.args
     ds = [None] * (len(ps) - len(a.defaults)) + list(a.defaults)
     return [(p, d) for p, d in list(zip(ps, ds))[1:] if d is None]
+
+
+def r6(ctx: Context, sites) -> None:
+    """What a final status points at stays readable: the outcome stores only grow."""
+    from ..flow import mem_store_writes
+    from . import c16
+
+    ctx.rule("R6", "a stored outcome stays stored: the containers / tables written by _set_result and _set_exception are changed by nothing else than these two writers (each inserting into its own store only) and purge - a late writer (a stale runner whose status request is refused afterwards) cannot remove what a published SUCCESS / FAILED points at; and no operation of the stores that hold outcomes (state backends, client data stores) swallows a storage error (C16/R11): a write that did not happen is not reported as done")
+    base = ctx.repo.cls("BaseStateBackend")
+    n = 0
+    for c in [x for x in ctx.repo.classes.values() if x is not base and base in x.mro() and x.module.name.startswith("pynenc.")]:
+        setters = {nm: c.methods.get(nm) for nm in ("_set_result", "_set_exception")}
+        if any(v is None for v in setters.values()):
+            continue
+        own: dict[str, set[str]] = {}
+        for nm, f in setters.items():
+            mem = {w.attr for w in mem_store_writes(f.node)}
+            sql = {(sqlmini.target_table(x.template) or "?").split(".")[-1] for x in sites if x.func is f and x.verb.split()[0] in ("INSERT", "REPLACE", "UPDATE", "DELETE")}
+            own[nm] = {("mem", a) for a in mem} | {("sql", t) for t in sql}
+        stores = own["_set_result"] | own["_set_exception"]
+        shared = own["_set_result"] & own["_set_exception"]
+        ctx.add("R6", f"{c.qualname}::result-and-exception-stores-are-disjoint", not shared, c.module.relpath, "" if not shared else f"both writers change {sorted(k[1] for k in shared)}: storing one kind of outcome alters the other")
+        if not own["_set_result"] or not own["_set_exception"]:
+            raise AnalysisError(f"outcome-store-not-identified: {c.qualname}")
+        for m in c.methods.values():
+            touched = {("mem", w.attr): w.node for w in mem_store_writes(m.node)}
+            touched.update({("sql", (sqlmini.target_table(x.template) or "?").split(".")[-1]): x.call for x in sites if x.func is m and x.verb.split()[0] in ("INSERT", "REPLACE", "UPDATE", "DELETE", "DROP")})
+            hits = {k: v for k, v in touched.items() if k in stores}
+            if not hits:
+                continue
+            n += 1
+            if m.name in setters:
+                foreign = {k: v for k, v in hits.items() if k not in own[m.name]}
+                removing = [x for x in sites if x.func is m and x.verb.split()[0] in ("DELETE", "DROP")] + [w for w in mem_store_writes(m.node) if w.how in ("del", "method:pop", "method:clear", "method:popitem", "rebind")]
+                ok = not foreign and not removing
+                why = "" if ok else (f"writes the other outcome's store {sorted(k[1] for k in foreign)}" if foreign else "removes entries") + ": an exception stored by a stale runner after another runner published SUCCESS (or the reverse) destroys the outcome the final status points at - the status request that follows is refused, the damage stays"
+                ctx.add("R6", f"{m.qualname}::writes-only-its-own-outcome-store", ok, m.loc(next(iter(foreign.values()))) if foreign else m.loc(), why)
+            else:
+                ok = m.name.lstrip("_") in ("purge", "init", "init_tables") or m.name == "__init__"
+                ctx.add("R6", f"{m.qualname}::outcome-stores-changed-only-by-setters-and-purge", ok, m.loc(next(iter(hits.values()))), "" if ok else f"changes the outcome store(s) {sorted(k[1] for k in hits)}")
+    ctx.floor("R6", "methods touching an outcome store", n, 6)
+    flt = lambda c_: "StateBackend" in c_.name or "ClientDataStore" in c_.name  # noqa: E731
+    sub = Context("C16", ctx.repo, ctx.tier, ctx.seed)
+    sub._resolver = ctx._resolver
+    c16.r11(sub, flt)
+    for i in sub.instances:
+        ctx.add("R6", i.key.split("/", 2)[2], i.ok, i.where, i.detail)
 
 
 def run(ctx: Context) -> None:
@@ -464,6 +532,7 @@ def run(ctx: Context) -> None:
             n5 += 1
             ctx.add("R5", k, i.ok, i.where, i.detail)
     ctx.floor("R5", "externalised-value obligations", n5, 5)
+    r6(ctx, sites)
     ctx.exhaustive = True
     ctx.not_decided += [
         "value equality of stored and returned results for every serializer value (quantifies over runtime values; C15 shares the limit)",
